@@ -82,9 +82,19 @@ impl<T: Config> InputQueue<T> {
         let fill_count = delay - old_delay;
         let fill_start = self.last_added_frame + 1;
         let last_input = self.inputs[Self::prev_pos(self.head)];
-        (0..fill_count as i32)
+        let fills: Vec<_> = (0..fill_count as i32)
             .map(|i| PlayerInput::new(fill_start + i, last_input.input))
-            .collect()
+            .collect();
+
+        // The caller announces these frames to the remote peers (and counts them as received)
+        // right away, so they have to exist in the queue right away as well. Leaving them to the
+        // next `add_input()` made a second delay change before that input compute overlapping
+        // fills, and let confirmed inputs be requested for frames the queue did not hold yet.
+        for fill in &fills {
+            self.add_input_by_frame(*fill, fill.frame);
+        }
+
+        fills
     }
 
     pub(crate) fn reset_prediction(&mut self) {
